@@ -170,6 +170,7 @@ Fixpoint viol_steps (c : cfg) (typed : bool) (cl prev : option view) (pstored : 
         (if forallb (call_ok typed pv pstored) (g_call o) then [] else [4]) ++
         (if unappliable pv (so_ev o) &&
             negb (is_nil (g_pub o) && is_nil (g_call o) && veqb pstored (g_stored o)) then [5] else [])
+      | Some _, None => [1]          (* the get request failed / served something that is no resource value *)
       | _, _ => []
       end ++
       (if typed && negb (geqb (g_value o) (g_get o)) then [6] else []) ++
